@@ -253,7 +253,7 @@ def main(argv=None):
     for k in sorted(m['sets']):
         print('   |%s|=%d' % (k, len(m['sets'][k])))
     for nline in m['notes'][:10]:
-        print('   note: ' + str(nline)[:400])
+        print('   note: ' + str(nline)[:120] + ' ... ' + str(nline)[-500:])
     if unknown:
         return 1
     if unmet:
